@@ -11,6 +11,7 @@ package main
 // statement of C18 (and go-cptv's field codes) reads the result back.
 
 import (
+	"bytes"
 	"encoding/binary"
 	"fmt"
 	"io"
@@ -258,8 +259,18 @@ func execD(r *verifsim.Run, conns []*dConn, sched bool) *dResult {
 	slowFor := time.Duration(r.OneOf(500, 2500, 10000, 60000)) * time.Millisecond
 	readerDone := false
 	var pipes []net.Conn
+	// leftovers: the output directory already holds (longer) files under the names this run is going to use -
+	// the clock of a device without a battery-backed clock repeats after a power cut
+	leftovers := r.Chance(1, 6)
+	junk := bytes.Repeat([]byte{0xEE, 0x01, 0x7F, 0x00}, 64*1024)
 	bp := bubble(func(t *testing.T) {
 		t0 := time.Now()
+		if leftovers {
+			for k := 0; k < 40; k++ {
+				os.WriteFile(filepath.Join(root, t0.Add(time.Duration(k)*time.Second).Format("2006_01_02T15_04_05")+".cptr"), junk, 0644)
+			}
+			r.Probe("leftover-files-under-the-names-to-come")
+		}
 		var s *verifsim.Sched
 		if sched {
 			s = verifsim.NewSched(r)
@@ -349,6 +360,11 @@ func execD(r *verifsim.Run, conns []*dConn, sched bool) *dResult {
 	names, _ := filepath.Glob(filepath.Join(root, "*"))
 	sort.Strings(names)
 	for _, n := range names {
+		if leftovers {
+			if b, err := os.ReadFile(n); err == nil && bytes.Equal(b, junk) {
+				continue // a leftover whose name was not used
+			}
+		}
 		res.Files = append(res.Files, parseCPTR(n))
 	}
 	return res
